@@ -335,3 +335,7 @@ mod tests {
         Some(params)
     }
 }
+
+#[cfg(all(test, pendulum_project_ntpd_rs_verif))]
+#[path = "/verif/harness/ntpd/hook_daemon__spawn__mod.rs"]
+mod verif_hook;
